@@ -1033,7 +1033,12 @@ func (r *replicateChannelHandler) AddCollection(taskID string, sourceInfo *model
 		replicatePool.Submit(func() (struct{}, error) {
 			dropCollectionLog := log.With(zap.Int64("collection_id", collectionID), zap.String("collection_name", targetInfo.CollectionName))
 			dropCollectionLog.Info("generate msg for dropped collection")
-			generatePosition := r.sourceSeekPosition
+			// the collection's own seek position; the handler's one (that of the collection the handler was created for) only
+			// when the collection has none
+			generatePosition := sourceInfo.SeekPosition
+			if generatePosition == nil || generatePosition.Timestamp == 0 {
+				generatePosition = r.sourceSeekPosition
+			}
 			if generatePosition == nil || generatePosition.Timestamp == 0 {
 				// TODO how to do it???
 				dropCollectionLog.Warn("drop collection, but seek timestamp is 0")
